@@ -218,6 +218,10 @@ func (e *Engine) harnessPrim(fn *ssa.Function, name string, args []Value) (Value
 		w := mkStr(words[e.concretize(it, 0, len(words)-1)])
 		e.recordPrim("s", w.bytes...)
 		return w, true
+	case "vpConstChars":
+		// the distinct printable bytes that occur in string and byte constants of
+		// the named functions (current SSA), as a character-class body
+		return mkStr(e.sh.constChars(e.mustStr(args[0], "vpConstChars"))), true
 	case "vpReMatch":
 		return e.reMatchUnanchored(e.mustStr(args[0], "vpReMatch"), args[1].(StrVal)), true
 	}
@@ -377,6 +381,58 @@ func (e *Engine) libIntrinsic(fn *ssa.Function, full string, args []Value) (Valu
 		return TupleVal{mkInt(0), IfaceVal{}}, true
 	case "sort.Strings":
 		e.sortStrings(args[0].(SliceVal))
+		return nil, true
+	case "sort.Slice", "sort.SliceStable":
+		// insertion sort driven by the caller's less function (forks on its answers);
+		// the result is a stable sort, one of the permutations sort.Slice may produce
+		iv := args[0].(IfaceVal)
+		sl, ok := iv.val.(SliceVal)
+		if !ok {
+			unsupported("sort.Slice of %v", iv.typ)
+		}
+		less := args[1].(FuncVal)
+		for i := 1; i < sl.len; i++ {
+			for j := i; j > 0; j-- {
+				r := e.callFuncVal(less, []Value{mkInt(int64(j)), mkInt(int64(j - 1))}).(*Term)
+				if !e.decide(r) {
+					break
+				}
+				a, b := &sl.arr.elems[sl.off+j], &sl.arr.elems[sl.off+j-1]
+				ta, tb := copyVal(*a), copyVal(*b)
+				assign(a, tb)
+				assign(b, ta)
+			}
+		}
+		return nil, true
+	case "(*strings.Builder).WriteString":
+		p := args[0].(PtrVal)
+		cur := e.sbufs[p.slot]
+		add := args[1].(StrVal)
+		if add.atom != nil || cur.atom != nil {
+			unsupported("strings.Builder with opaque string")
+		}
+		e.sbufs[p.slot] = StrVal{bytes: append(append([]*Term{}, cur.bytes...), add.bytes...)}
+		return TupleVal{mkInt(int64(len(add.bytes))), IfaceVal{}}, true
+	case "(*strings.Builder).WriteByte", "(*strings.Builder).WriteRune":
+		p := args[0].(PtrVal)
+		cur := e.sbufs[p.slot]
+		c := args[1].(*Term)
+		if c.konst && c.iv >= 128 {
+			unsupported("strings.Builder.WriteRune of non-ASCII rune")
+		}
+		e.sbufs[p.slot] = StrVal{bytes: append(append([]*Term{}, cur.bytes...), c)}
+		if full == "(*strings.Builder).WriteByte" {
+			return IfaceVal{}, true
+		}
+		return TupleVal{mkInt(1), IfaceVal{}}, true
+	case "(*strings.Builder).String":
+		return e.sbufs[args[0].(PtrVal).slot], true
+	case "(*strings.Builder).Len":
+		return mkInt(int64(len(e.sbufs[args[0].(PtrVal).slot].bytes))), true
+	case "(*strings.Builder).Grow":
+		return nil, true
+	case "(*strings.Builder).Reset":
+		delete(e.sbufs, args[0].(PtrVal).slot)
 		return nil, true
 	case "context.Background", "context.TODO":
 		return IfaceVal{typ: e.sh.marks.opaque, val: mkInt(0)}, true
